@@ -2426,6 +2426,57 @@ def get_node_after_mutation_table(repo, run, rule):
         run.ok(rule, fi, 'get_node answers from the current child maps (%d rows)' % rows)
 
 
+def node_identity_discipline(repo, run, rule):
+    """in the container classes a child node is looked up in a collection by its identity (id(child) in memo), never by value: nodes
+    compare by content (two `3`s, two equal mappings are ==), so `child in removed_children` confuses a node with an equal sibling -
+    e.g. an element that survives a delete because of its priority is dropped together with an equal one that does not"""
+    mods = {repo.classes[c].module for c in ('ComposedNode', 'ConfigList', 'ConfigDict') if c in repo.classes}
+    n = 0
+    for fi in repo.all_functions(include_nested=True):
+        if fi.module not in mods:
+            continue
+        nodeish = set()
+
+        def src_is_children(x):
+            t = norm(x)
+            return t in ('self', 'list.__iter__(self)') or t.endswith('._children.values()') or t.endswith('.ayns.children()') or t.endswith('.children()') or t == 'self.values()' or t == 'dict.values(self)'
+
+        def src_is_items(x):
+            t = norm(x)
+            return t.endswith('._children.items()') or t.endswith('.named_children()') or t == 'self.items()' or t == 'dict.items(self)' or t == 'enumerate(self)'
+        for node in ast.walk(fi.node):
+            gens = []
+            if isinstance(node, ast.For):
+                gens.append((node.target, node.iter))
+            if isinstance(node, (ast.ListComp, ast.SetComp, ast.GeneratorExp, ast.DictComp)):
+                gens.extend((g.target, g.iter) for g in node.generators)
+            for tgt, it in gens:
+                if isinstance(tgt, ast.Name) and src_is_children(it):
+                    nodeish.add(tgt.id)
+                if isinstance(tgt, ast.Tuple) and len(tgt.elts) == 2 and isinstance(tgt.elts[1], ast.Name) and src_is_items(it):
+                    nodeish.add(tgt.elts[1].id)
+            if isinstance(node, ast.Assign) and len(node.targets) == 1 and isinstance(node.targets[0], ast.Name):
+                v = node.value
+                if (isinstance(v, ast.Subscript) and norm(v.value) in ('self', 'self._children')) or (isinstance(v, ast.Call) and isinstance(v.func, ast.Attribute) and v.func.attr == 'get_child'):
+                    nodeish.add(node.targets[0].id)
+        if not nodeish:
+            continue
+        stores = {}
+        for x in ast.walk(fi.node):
+            if isinstance(x, ast.Name) and isinstance(x.ctx, ast.Store):
+                stores[x.id] = stores.get(x.id, 0) + 1
+        for c in ast.walk(fi.node):
+            if isinstance(c, ast.Compare) and len(c.ops) == 1 and isinstance(c.ops[0], (ast.In, ast.NotIn)) and isinstance(c.left, ast.Name) and c.left.id in nodeish and stores.get(c.left.id, 0) == 1:
+                n += 1
+                run.violation(rule, fi, norm(c)[:90], 'membership of the child node `%s` in %s is decided by value equality; nodes compare by content, so an equal but distinct node (a sibling holding the same value) is taken for it - the library\'s own bookkeeping uses id(node) for this' % (c.left.id, norm(c.comparators[0])[:50]), node=c)
+            if isinstance(c, ast.Call) and isinstance(c.func, ast.Attribute) and c.func.attr in ('index', 'remove', 'count') and len(c.args) == 1 and isinstance(c.args[0], ast.Name) \
+                    and c.args[0].id in nodeish and stores.get(c.args[0].id, 0) == 1 and not norm(c.func.value).endswith('_children'):
+                n += 1
+                run.violation(rule, fi, norm(c)[:90], 'the child node `%s` is searched for by value (%s): nodes compare by content, an equal sibling is found instead' % (c.args[0].id, c.func.attr), node=c)
+    if n == 0:
+        run.ok(rule, ('awesomeyaml/nodes/composed.py', 0, '<container classes>'), 'child nodes are never looked up in collections by value (identity discipline)')
+
+
 def tag_spec(repo, run, rule, tags):
     """the constructor registered for each of the given tags builds the node class the tag stands for, with the documented data
     handling (which argument receives the YAML value, whether scalars are parsed, whether a mapping is the data or the arguments) - and
